@@ -235,6 +235,38 @@ pub fn run(ctx: &Ctx) {
     ctx.enable_trace_pass(ctx.tier.pick(20000u64, 200000u64));
     ctx.set_rule("case = one code value; HTYP and MSIN: all 256 bytes each, through the conversion functions and through a real message; type info: every word of the stated domain, compared with an independent decoder of the bit layout (exactly one of BOOL/SINT/UINT/FLOA/STRG/RAWD among bits 4..10, supported TYLE) and re-encoded in both byte orders; non-trivial = the word is accepted");
     ctx.run_family(Family::new("c14.htyp", 256 * 4 * HTYP_FILLS.len() as u64, "all 256 HTYP bytes, each in a message with exactly the header fields it announces x {plain, behind a storage header, behind a storage header and parsed with an ECU-id filter that admits it, no storage header with that filter} x 6 contents of the optional fields {ECU1/ordinary numbers, all zero (empty ECU id), all 0xFF (not UTF-8), short id + extreme numbers, id starting with NUL + numbers spelling the storage / serial patterns, 2-byte character id}", |i, loc| judge_htyp(i as u8, ((i >> 8) & 3) as usize, (i >> 10) as usize, loc)));
+    // whatever LEN says: a returned message carries exactly the flags of its HTYP byte
+    ctx.run_family(Family::new("c14.htyp_any_len", 256 * 48 * 2, "all 256 HTYP bytes x EVERY declared length 0..=47 (shorter than, equal to and longer than the headers the byte announces) x {no storage header, storage header} over a 64-byte body: the parser may refuse, but a message it returns has version and flags as the bit layout prescribes and re-encodes to the same byte", |i, loc| {
+        let htyp = (i & 0xFF) as u8;
+        let len = ((i >> 8) % 48) as u8;
+        let storage = (i >> 8) / 48 == 1;
+        let mut b: Vec<u8> = vec![];
+        if storage {
+            b.extend_from_slice(b"DLT\x01\x01\x02\x03\x04\x05\x06\x07\x00STOR");
+        }
+        b.extend_from_slice(&[htyp, 9, 0, len]);
+        b.extend((0..64u8).map(|k| if k % 5 == 4 { 0 } else { 0x41 + k % 7 }));
+        loc.evals += 1;
+        loc.traces += 1;
+        loc.transitions += 1;
+        loc.state(i + 0x5000_0000, true);
+        let details = || json!({"htyp": htyp, "len": len, "storage": storage, "input_hex": hex(&b)});
+        match catch(|| dlt_message(&b, None, storage).map(|(rest, pm)| (rest.len(), pm))) {
+            Err(p) => loc.violation("dlt_message panics", format!("HTYP {:#04x} LEN {}: panicked: {}", htyp, len, p), details()),
+            Ok(Ok((_, ParsedMessage::Item(m)))) => {
+                let h = &m.header;
+                let expect = (htyp >> 5, htyp & 0x02 != 0, htyp & 0x01 != 0, htyp & 0x04 != 0, htyp & 0x08 != 0, htyp & 0x10 != 0);
+                let got = (h.version, h.endianness == Endianness::Big, h.has_extended_header, h.ecu_id.is_some(), h.session_id.is_some(), h.timestamp.is_some());
+                let byte = catch(|| h.header_type_byte());
+                if got != expect || m.extended_header.is_some() != (htyp & 1 != 0) || byte != Ok(htyp) {
+                    loc.violation("returned message does not carry the flags of its HTYP byte", format!("HTYP {:#04x} with declared length {} decoded to (version, big endian, UEH, WEID, WSID, WTMS) = {:?} (extended header present: {}), bit layout says {:?}; re-encoded byte {:?}", htyp, len, got, m.extended_header.is_some(), expect, byte), details());
+                } else {
+                    loc.outcome("message with the flags of its HTYP");
+                }
+            }
+            Ok(_) => loc.outcome("refused / incomplete / no item"),
+        }
+    }));
     ctx.run_family(Family::new("c14.msin", 256 * MSIN_FILLS.len() as u64, "all 256 MSIN bytes through MessageType::try_from / u8::from and through the extended header of a message x 5 contents of the application / context id fields {3 letters, empty, 4 letters, not UTF-8, spelling the storage / serial patterns}", |i, loc| judge_msin(i as u8, (i >> 8) as usize, loc)));
     // history: decoding a word must not depend on the words decoded before (memo tables, negative
     // caches): for ALL ordered pairs (x, y) of patterns of bits 0..12, decode x, then judge y twice
